@@ -34,6 +34,9 @@ type Contract struct {
 	Requires   []Clause
 	Ensures    []Clause
 	Assumes    []Clause // function-level assumptions (trusted)
+	GMod       []SExpr  // ghost state updated by an event of this call (applied at call sites only)
+	GEns       []Clause // definitional ghost updates (applied at call sites only, not proved in the body)
+	AllowPanic bool
 	Modifies   []SExpr
 	ModifiesSrc []string
 	LoopInv    map[int][]Clause
@@ -61,7 +64,15 @@ type GhostField struct {
 	Sort    Sort
 }
 
+type ModSet struct {
+	PkgPath string
+	Name   string
+	Params []string
+	Items  []SExpr
+}
+
 type Pred struct {
+	PkgPath string
 	Name   string
 	Params []string
 	Body   SExpr
@@ -73,6 +84,7 @@ type ContractTable struct {
 	Ghosts      map[string]*GhostVar
 	GhostFields map[string]*GhostField // key: pkgpath.Type.name
 	Preds       map[string]*Pred
+	ModSets     map[string]*ModSet
 	Files       []string
 	Axioms      []Clause
 }
@@ -131,7 +143,8 @@ func (ct *ContractTable) parseFile(repo, file string) error {
 	var items []item
 	keywords := map[string]bool{"func": true, "extern": true, "iface": true, "ghost": true, "ghostfield": true, "pred": true,
 		"requires": true, "ensures": true, "modifies": true, "serves": true, "loop": true, "call": true, "assume": true,
-		"trusted": true, "inline": true, "pure": true, "nobody": true, "axiom": true, "end": true}
+		"trusted": true, "inline": true, "pure": true, "nobody": true, "axiom": true, "end": true,
+		"gmodifies": true, "gensures": true, "modset": true, "allowpanic": true}
 	for i, l := range lines {
 		t := strings.TrimSpace(l)
 		if !strings.HasPrefix(t, "//@") {
@@ -268,7 +281,7 @@ func (ct *ContractTable) parseFile(repo, file string) error {
 			if k < 0 || k2 < k || k3 < k2 {
 				return errf("bad pred")
 			}
-			p := &Pred{Name: strings.TrimSpace(rest[:k]), Src: rest}
+			p := &Pred{Name: strings.TrimSpace(rest[:k]), Src: rest, PkgPath: pkgPath}
 			for _, a := range strings.Split(rest[k+1:k2], ",") {
 				a = strings.TrimSpace(a)
 				if a != "" {
@@ -281,6 +294,37 @@ func (ct *ContractTable) parseFile(repo, file string) error {
 			}
 			p.Body = e
 			ct.Preds[p.Name] = p
+			cur = nil
+		case "modset":
+			// modset name(a, b) = loc, loc, ...
+			k := strings.Index(rest, "(")
+			k2 := strings.Index(rest, ")")
+			k3 := strings.Index(rest, "=")
+			if k < 0 || k2 < k || k3 < k2 {
+				return errf("bad modset")
+			}
+			ms := &ModSet{Name: strings.TrimSpace(rest[:k]), PkgPath: pkgPath}
+			for _, a := range strings.Split(rest[k+1:k2], ",") {
+				a = strings.TrimSpace(a)
+				if a != "" {
+					ms.Params = append(ms.Params, a)
+				}
+			}
+			for _, part := range splitTopLevel(rest[k3+1:], ',') {
+				part = strings.TrimSpace(part)
+				if part == "" {
+					continue
+				}
+				e, err := ParseSpec(part)
+				if err != nil {
+					return errf("%v", err)
+				}
+				ms.Items = append(ms.Items, e)
+			}
+			if ct.ModSets == nil {
+				ct.ModSets = map[string]*ModSet{}
+			}
+			ct.ModSets[ms.Name] = ms
 			cur = nil
 		case "end":
 			cur = nil
@@ -301,6 +345,26 @@ func (ct *ContractTable) parseFile(repo, file string) error {
 				cur.Pure = true
 			case "nobody":
 				cur.NoBody = true
+			case "allowpanic":
+				cur.AllowPanic = true
+			case "gmodifies":
+				for _, part := range splitTopLevel(rest, ',') {
+					part = strings.TrimSpace(part)
+					if part == "" {
+						continue
+					}
+					e, err := ParseSpec(part)
+					if err != nil {
+						return errf("%v", err)
+					}
+					cur.GMod = append(cur.GMod, e)
+				}
+			case "gensures":
+				tags, label, e, src, err := parseTagged(rest)
+				if err != nil {
+					return errf("%v", err)
+				}
+				cur.GEns = append(cur.GEns, Clause{Kind: w, Tags: tags, Label: label, Expr: e, Src: src, File: file, Line: it.line})
 			case "requires", "ensures", "assume":
 				tags, label, e, src, err := parseTagged(rest)
 				if err != nil {
